@@ -215,9 +215,11 @@ class Program:
         self.exact = []        # per tid: ET
 
     # -- construction ---------------------------------------------------------------------------
-    def leaf(self, shape, values, req):
+    def leaf(self, shape, values, req, alias=None):
+        """alias = index of an earlier leaf of the same shape and values: a DISTINCT leaf tensor that shares its
+        memory (q = p.detach().requires_grad_(), nn.Parameter(p.data)); an independent variable for autograd"""
         t = len(self.shapes)
-        self.instrs.append(("leaf", tuple(shape), list(values), bool(req)))
+        self.instrs.append(("leaf", tuple(shape), list(values), bool(req)) + (() if alias is None else (int(alias),)))
         self.shapes.append(tuple(shape))
         self.is_leaf.append(True)
         self.req.append(bool(req))
@@ -283,9 +285,11 @@ class Program:
         ts = []
         for ins in self.instrs:
             if ins[0] == "leaf":
-                _, shape, values, req = ins
+                _, shape, values, req = ins[:4]
                 t = torch.tensor(values, dtype=dtype).reshape(shape)
-                if len(shape) >= 2 and len(ts) % 3 == 1:
+                if len(ins) > 4:
+                    t = ts[ins[4]].detach()              # same storage, same data_ptr, a different leaf
+                elif len(shape) >= 2 and len(ts) % 3 == 1:
                     # every third leaf of rank >= 2 is DENSE BUT NOT ROW-MAJOR (column-major storage, as a
                     # transposed parameter or a channels_last weight): same values, same shape, still a leaf
                     rev = tuple(reversed(range(len(shape))))
@@ -315,7 +319,7 @@ class Program:
         p = Program()
         for ins in obj["instrs"]:
             if ins[0] == "leaf":
-                p.leaf(tuple(ins[1]), ins[2], ins[3])
+                p.leaf(tuple(ins[1]), ins[2], ins[3], *(ins[4:5]))
             else:
                 kw = dict(ins[3])
                 if "shape" in kw:
